@@ -462,16 +462,19 @@ fn n_for_class(rng: &mut Rng, class: usize, deep: bool) -> usize {
         0 => 0,
         1 => 1 + rng.below(12) as usize,
         2 => 13 + rng.below(188) as usize,
-        3 => 250 + rng.below(14) as usize,
+        3 => 257 + rng.below(12) as usize, // always carries a count across 255 -> 256
         4 if deep => 3_000 + rng.below(27_000) as usize,
         4 => 300 + rng.below(2700) as usize,
-        5 => 65_530 + rng.below(12) as usize,
+        5 => 65_538 + rng.below(8) as usize, // always carries a count across 65 535 -> 65 536
         _ => 0, // 16M handled by caller
     }
 }
 
-pub fn gen_trace(rng: &mut Rng, cfg: &GenCfg) -> Op {
-    let subject = *rng.pick(&cfg.subjects);
+pub fn gen_trace(rng: &mut Rng, cfg: &GenCfg, run: u64) -> Op {
+    // boundary batches with very few, expensive runs visit their subjects in turn so that every
+    // count-bearing table is carried across 65 536 in every run of the check, whatever the seed
+    let drawn = *rng.pick(&cfg.subjects);
+    let subject = if cfg.classes[5] > 0 && cfg.classes[..5].iter().all(|w| *w == 0) { cfg.subjects[(run % cfg.subjects.len() as u64) as usize] } else { drawn };
     let mut class = length_class(rng, &cfg.classes);
     let faults = cfg.faults;
     let mut r = root(rng, subject);
